@@ -22,9 +22,9 @@ for p in props:
         "engine": "pyvc",
         "level_claimed": {"category": "proof",
                           "text": m["decided_by"] + " Every obligation is generated from /repo's current source on every run and "
-                                  "discharged by z3 function by function (callers see callee contracts only). The bounded stand-in "
-                                  "(executable contracts vs a brute-force oracle on small networks) runs alongside and is reported "
-                                  "separately, never counted as proved.",
+                                  "discharged by z3 function by function (callers see callee contracts only); an obligation that is not "
+                                  "discharged makes the check fail. BOUNDED stand-in, run alongside, reported separately and never counted "
+                                  "as proved: " + m.get("bounded", "executable contracts vs a brute-force oracle on small networks") + ".",
                           "design_ref": f"DESIGN.md section 7 ({pid})"},
         "level_note": "Trusted: " + "; ".join(m.get("trusted", [])) + "; assumed contracts on biodivine_aeon / clingo / networkx "
                       "(DESIGN.md section 4), cited or Lean-proved lemma instances (section 3), the pyvc front end and z3. "
